@@ -80,7 +80,7 @@ LEAVES: List[Any] = [
 KEYS = ["K", "Type", "A B", "é", "a#b", "x"]
 
 BOUNDS = {
-    "quick": {"atom_dev": 2, "long_dev": 1, "pair_dev": 1, "tree_dev": 1, "tree_nodes": 5, "tree_rot": 1, "pair_all_dicts": False, "seq_len": 2, "reuse_dev": 0,
+    "quick": {"atom_dev": 2, "long_dev": 1, "pair_dev": 1, "tree_dev": 1, "tree_nodes": 5, "tree_rot": 2, "pair_all_dicts": False, "seq_len": 2, "reuse_dev": 0,
               "doc_bufsiz": [4096, 1, 2, 3, 7], "split": {"atom": 1, "long": 1, "pair": 1, "tree": 1, "seq": 1, "seq0": 1, "flood": 1, "reuse": 1, "badkeys": 1}},
     "thorough": {"atom_dev": 3, "long_dev": 2, "pair_dev": 1, "pair2_dev": 2, "tree_dev": 1, "tree_nodes": 6, "tree_rot": 3, "pair_all_dicts": True, "seq_len": 3, "reuse_dev": 1,
                  "doc_bufsiz": [4096, 1, 2, 3, 5, 7, 8, 13], "split": {"atom": 8, "long": 24, "pair": 1, "pair2": 4, "tree": 1, "seq": 1, "seq0": 1, "flood": 1, "reuse": 1, "badkeys": 1}},
